@@ -28,7 +28,7 @@
 (*                         tc (the truncated udp reply), other             *)
 (* HelloSeen, HsFailed, UdpQuery, BadQuery are informational.              *)
 (* Silent: Tick01, DialAbort, ConnClose, GoExit, UGoExit, QueryTimeout,    *)
-(* UdpTimeout, TcpRefuse, Retry.                                           *)
+(* UdpTimeout, TcpRefuse, Retry, Fallback, Attach.                         *)
 (***************************************************************************)
 EXTENDS UpDial, IOUtils
 
@@ -65,6 +65,7 @@ Reset ==
     /\ con' = [c \in Calls |-> 0]
     /\ answered' = [c \in Calls |-> FALSE]
     /\ own' = [c \in Calls |-> FALSE]
+    /\ att' = [c \in Calls |-> "none"]
     /\ ust' = [c \in Calls |-> "none"]
     /\ hist' = <<>>
 
@@ -113,7 +114,7 @@ Silent ==
     /\ UNCHANGED <<l, smap>>
     /\ \/ Tick01 \/ UGoExit
        \/ \E d \in Dials : DialAbort(d) \/ ConnClose(d) \/ GoExit(d) \/ QueryTimeout(d) \/ TcpRefuse(d)
-       \/ \E c \in Calls : UdpTimeout(c) \/ Retry(c)
+       \/ \E c \in Calls : UdpTimeout(c) \/ Retry(c) \/ Fallback(c) \/ Attach(c)
 
 TraceNext == (Reset \/ Logged \/ Silent) /\ UpInv'
 
